@@ -398,7 +398,7 @@ func rule084(r *core.Run) {
 				cd := core.CondOf(g.If.Cond)
 				switch {
 				case gs.Has("global:io.EOF"):
-				case cd.Op == token.NEQ && core.IsNilConst(cd.Y) && (gs.Has("field:gofakes3.hashingReader.expected") || gs.HasValue(core.ErrorResult(inner)) || isErrTyped(cd.X)):
+				case (cd.Op == token.NEQ || cd.Op == token.EQL) && (core.IsNilConst(cd.Y) || core.IsNilConst(cd.X)) && (gs.Has("field:gofakes3.hashingReader.expected") || gs.HasValue(core.ErrorResult(inner)) || isErrTyped(cd.X) || isErrTyped(cd.Y)):
 				default:
 					if c, ok := cd.X.(*ssa.Call); ok && r.P.CalleeName(c) == "bytes.Equal" {
 						continue
